@@ -8,7 +8,7 @@ use leptos_i18n_parser::parse_locales::parsed_value::ParsedValue;
 use leptos_i18n_parser::utils::Key;
 use leptos_i18n_parser::utils::KeyPath;
 use leptos_i18n_parser::utils::UnwrapAt;
-use proc_macro2::{Span, TokenStream};
+use proc_macro2::TokenStream;
 use quote::format_ident;
 use quote::quote;
 use quote::ToTokens;
@@ -267,7 +267,8 @@ impl Interpolation {
 
         let builder_name = format!("{}_builder", key);
 
-        let ident = syn::Ident::new(&builder_name, Span::call_site());
+        // use the key's identifier form (not its raw name, which may contain '-')
+        let ident = format_ident!("{}_builder", key);
 
         let dummy_ident = format_ident!("{}_dummy", ident);
 
